@@ -115,7 +115,7 @@ def parse_tlc_log(path):
     return st
 
 
-def run_gen(sdir, harness, module, constants, invariants, props, tlc_timeout, label, max_cases=0, opts='', simulate=None, depth=None, crashprop=None, workers=None):
+def run_gen(sdir, harness, module, constants, invariants, props, tlc_timeout, label, max_cases=0, opts='', simulate=None, depth=None, crashprop=None, workers=None, hworkers=None):
     """TLC enumerates/simulates and prints cases; the harness replays them against the real library."""
     cfg = os.path.join(sdir, '%s.cfg' % label)
     write_cfg(cfg, constants=constants, invariants=invariants)
@@ -131,6 +131,8 @@ def run_gen(sdir, harness, module, constants, invariants, props, tlc_timeout, la
         hcmd += ['-opts', opts]
     if crashprop:
         hcmd += ['-crashprop', crashprop]
+    if hworkers:
+        hcmd += ['-workers', str(hworkers)]
     h = subprocess.Popen(hcmd, stdin=tlc.stdout, cwd=sdir)
     tlc.stdout.close()
     h.wait()
